@@ -383,3 +383,127 @@ Example C12_dist_sa_nonvacuous :
   | None => False
   end.
 Proof. vm_compute. repeat split; reflexivity. Qed.
+
+(* ------------------------------------------------------------------------------------------------------------------------ *)
+(* C12-D: the smoothers under MPI, as amgcl::runtime::mpi::relaxation::wrapper builds and applies them (DistRelax.v; tied to
+   amgcl/mpi/relaxation/runtime.hpp operator by operator by the ops relax / brelax of bin/check C12).
+
+   spai0, damped_jacobi and chebyshev do not depend on the partition: for EVERY contiguous partition (empty ranks, one-row
+   ranks, ...) every rank holds its slice of what the SERIAL smoother (Relax.v / Cheby.v, the objects of C06/C08) computes on
+   the assembled matrix -- the constructor's data (M; the inverted diagonal; the Gershgorin bound, the same on every rank,
+   hence the same polynomial coefficients) and the result of apply_pre / apply_post (= sweep) and apply.  A world vector is
+   [chunks parts v].  Hypotheses: ring laws, seqb decides equality, A well formed and square w.r.t. the partition, the
+   vectors have the length of the system; for chebyshev operator< is a strict total order (std::max / MPI_MAX).
+   gauss_seidel, ilu0/k/p/t and spai1 are built from the local diagonal block and DO depend on the partition (block smoothers);
+   they are tied to the code by the model only (gauss_seidel ignores the remote part altogether: known finding). *)
+From Amgcl Require Import Relax Cheby DistProofsG DistRelax DistRelaxProofsSetup DistRelaxProofs.
+
+(* every rank's distributed residual (ghost exchange + remote part) is its slice of the serial residual *)
+Theorem C12_dist_residual_every_rank (S : Scalar) :
+  Sring S -> seqb_spec S ->
+  forall (A : crs S) (parts : list nat),
+  psum parts = nrows A -> psum parts = ncols A -> wf A = true ->
+  forall f x res : vec S, length f = nrows A -> length res = nrows A ->
+  dist_residual (chunks parts f) (Dist.split A parts parts) (chunks parts x) (chunks parts res)
+  = chunks parts (residual f A x res).
+Proof. exact (@dist_residual_pieces S). Qed.
+Print Assumptions C12_dist_residual_every_rank.
+
+Theorem C12_dist_jacobi_every_partition (S : Scalar) :
+  Sring S -> seqb_spec S ->
+  forall (A : crs S) (parts : list nat),
+  psum parts = nrows A -> psum parts = ncols A -> wf A = true ->
+  forall (w : S) (junk f x tmp : vec S),
+  length f = nrows A -> length x = nrows A -> length tmp = nrows A ->
+  let D := Dist.split A parts parts in
+  let dias := dist_jacobi_setup D (chunks parts junk) in
+  dias = chunks parts (jacobi_setup A junk) /\
+  dist_jacobi_sweep w dias D (chunks parts f) (chunks parts x) (chunks parts tmp)
+    = chunks parts (fst (jacobi_sweep w (jacobi_setup A junk) A f x tmp)) /\
+  dist_jacobi_apply dias D (chunks parts f) (chunks parts x) = chunks parts (jacobi_apply (jacobi_setup A junk) f x).
+Proof. exact (@dist_jacobi_every_partition S). Qed.
+Print Assumptions C12_dist_jacobi_every_partition.
+
+Theorem C12_dist_spai0_every_partition (S : Scalar) :
+  Sring S -> seqb_spec S ->
+  forall (A : crs S) (parts : list nat),
+  psum parts = nrows A -> psum parts = ncols A -> wf A = true ->
+  forall f x tmp : vec S,
+  length f = nrows A -> length x = nrows A -> length tmp = nrows A ->
+  let D := Dist.split A parts parts in
+  let Ms := dist_spai0_setup D in
+  Ms = chunks parts (spai0_setup A) /\
+  dist_spai0_sweep Ms D (chunks parts f) (chunks parts x) (chunks parts tmp)
+    = chunks parts (fst (spai0_sweep (spai0_setup A) A f x tmp)) /\
+  dist_spai0_apply Ms D (chunks parts f) (chunks parts x) = chunks parts (spai0_apply (spai0_setup A) f x).
+Proof. exact (@dist_spai0_every_partition S). Qed.
+Print Assumptions C12_dist_spai0_every_partition.
+
+(* chebyshev (power_iters = 0): every rank holds the serial Gershgorin bound of the assembled matrix, hence the same (c, d)
+   (spread_cdm: the same pair on every rank, M = the rank's slice of the inverted diagonal when scale); all `degree` steps,
+   each with a distributed residual, produce the slices of the serial iterate; p, r: the workspaces (any contents) *)
+Theorem C12_dist_chebyshev_every_partition (S : Scalar) :
+  Sring S -> seqb_spec S ->
+  (forall a : S, sltb a a = false) ->
+  (forall a b c : S, sltb a b = true -> sltb b c = true -> sltb a c = true) ->
+  (forall a b : S, sltb a b = false -> sltb b a = false -> a = b) ->
+  forall (A : crs S) (parts : list nat),
+  psum parts = nrows A -> psum parts = ncols A -> wf A = true ->
+  forall (scale : bool) (lower higher : S) (degree : nat) (junk f x p r : vec S),
+  length f = nrows A -> length x = nrows A -> length p = nrows A -> length r = nrows A ->
+  let D := Dist.split A parts parts in
+  let his := dist_cheby_rho scale D in
+  let cdMs := dist_cheby_setup scale D his lower higher (chunks parts junk) in
+  let cdM := cheby_setup scale A (gershgorin scale A) lower higher junk in
+  his = repeat (gershgorin scale A) (length parts) /\
+  cdMs = spread_cdm parts cdM /\
+  dist_cheby_sweep cdMs degree D (chunks parts f) (chunks parts x) (chunks parts p) (chunks parts r)
+    = chunks parts (cheby_sweep cdM degree A f x p r) /\
+  dist_cheby_apply cdMs degree D (chunks parts f) (chunks parts x) (chunks parts p) (chunks parts r)
+    = chunks parts (cheby_apply cdM degree A f x p r).
+Proof. exact (@dist_chebyshev_every_partition S). Qed.
+Print Assumptions C12_dist_chebyshev_every_partition.
+
+Theorem C12_dist_chebyshev_every_partition_Qc (A : crs QcS) (parts : list nat) :
+  psum parts = nrows A -> psum parts = ncols A -> wf A = true ->
+  forall (scale : bool) (lower higher : QcS) (degree : nat) (junk f x p r : vec QcS),
+  length f = nrows A -> length x = nrows A -> length p = nrows A -> length r = nrows A ->
+  let D := Dist.split A parts parts in
+  let his := dist_cheby_rho scale D in
+  let cdMs := dist_cheby_setup scale D his lower higher (chunks parts junk) in
+  let cdM := cheby_setup scale A (gershgorin scale A) lower higher junk in
+  his = repeat (gershgorin scale A) (length parts) /\
+  cdMs = spread_cdm parts cdM /\
+  dist_cheby_sweep cdMs degree D (chunks parts f) (chunks parts x) (chunks parts p) (chunks parts r)
+    = chunks parts (cheby_sweep cdM degree A f x p r) /\
+  dist_cheby_apply cdMs degree D (chunks parts f) (chunks parts x) (chunks parts p) (chunks parts r)
+    = chunks parts (cheby_apply cdM degree A f x p r).
+Proof. exact (C12_dist_chebyshev_every_partition QcS QcS_ring QcS_eqb QcS_lt_irr' QcS_lt_trans' QcS_lt_tri' A parts). Qed.
+Print Assumptions C12_dist_chebyshev_every_partition_Qc.
+
+(* Model of a regression (seeded C12 r9): the wrapper builds chebyshev from the rank's diagonal block like the other serial
+   smoothers -- every rank runs the serial Gershgorin estimate on its own block, without the remote entries and without
+   MPI_MAX (DistRelaxProofs.local_block_rho).  Path 0-1-2-3 with rows (4 -2), (-2 4 -2), (-2 4 -2), (-2 6): the bound is 8
+   (row 3; rows 1, 2 give 8 as well).  Ranks [1; 2; 1] (thin ranks): the local blocks give 4, 6, 6 -- three ranks, none
+   holds the bound of the operator the polynomial is applied to, and they disagree with each other; the distributed
+   estimate gives 8 on every rank. *)
+Definition relax_ex_A : crs QcS := mkCrs 4 [[(0, qc 4 1); (1, qc (-2) 1)]; [(0, qc (-2) 1); (1, qc 4 1); (2, qc (-2) 1)];
+                                            [(1, qc (-2) 1); (2, qc 4 1); (3, qc (-2) 1)]; [(2, qc (-2) 1); (3, qc 6 1)]].
+Example C12_dist_chebyshev_local_block_rho_refuted :
+  let D := Dist.split relax_ex_A [1; 2; 1] [1; 2; 1] in
+  map qval (local_block_rho false D) = [(4 # 1)%Q; (6 # 1)%Q; (6 # 1)%Q] /\
+  map qval (dist_cheby_rho false D) = [(8 # 1)%Q; (8 # 1)%Q; (8 # 1)%Q] /\
+  qval (gershgorin false relax_ex_A) = (8 # 1)%Q.
+Proof. vm_compute. repeat split; reflexivity. Qed.
+
+(* non-vacuity: the hypotheses of the three theorems hold for this system and partition [1; 0; 2; 1] (an empty rank, one-row
+   ranks); one Chebyshev sweep of degree 2 on the world gives the slices of the serial one (computed on both sides) *)
+Example C12_dist_relax_nonvacuous :
+  let parts := [1; 0; 2; 1] in let A := relax_ex_A in
+  let f := [qc 1 1; qc 0 1; qc (-1) 1; qc 2 1] in let x := [qc 0 1; qc 1 1; qc 0 1; qc 0 1] in let z := [qc 0 1; qc 0 1; qc 0 1; qc 0 1] in
+  psum parts = nrows A /\ psum parts = ncols A /\ wf A = true /\
+  let D := Dist.split A parts parts in
+  let cdMs := dist_cheby_setup true D (dist_cheby_rho true D) (qc 1 4) (qc 1 1) (chunks parts z) in
+  map (map qval) (dist_cheby_sweep cdMs 2 D (chunks parts f) (chunks parts x) (chunks parts z) (chunks parts z))
+  = map (map qval) (chunks parts (cheby_sweep (cheby_setup true A (gershgorin true A) (qc 1 4) (qc 1 1) z) 2 A f x z z)).
+Proof. vm_compute. repeat split; reflexivity. Qed.
